@@ -319,14 +319,14 @@ theorem C20_desc_agrees (agg : Agg) (every offset : Int) (w : Win) (hw : reqWin 
       by_cases ha : agg = .last
       · have := (isLastDesc_iff (reqLegacy agg every offset)).mpr
           ⟨by simp [reqLegacy, hcode.mpr ha], by simp [reqLegacy, hm, maxInt64]⟩
-        simp [this, ha, Win.zero]
+        rw [this]; simp [ha, Win.zero]
       · have : IsLastDescendingAggregateOptimization (reqLegacy agg every offset) = false := by
           apply Bool.eq_false_iff.mpr
           intro h
           have := ((isLastDesc_iff _).mp h).1
           simp only [reqLegacy, List.cons.injEq, and_true] at this
           exact ha (hcode.mp this)
-        simp [this, ha]
+        rw [this]; simp [ha]
     · simp only [hm, ↓reduceIte, Option.some.injEq] at hw
       subst hw
       have : IsLastDescendingAggregateOptimization (reqLegacy agg every offset) = false := by
@@ -337,7 +337,7 @@ theorem C20_desc_agrees (agg : Agg) (every offset : Int) (w : Win) (hw : reqWin 
         rcases this with h1 | h1
         · omega
         · exact hm h1
-      simp [this, Win.ofWindow]
+      rw [this]; simp [Win.ofWindow]
 
 theorem newReqD_eq_newReq (agg : Agg) (w : Win) (shards : List (List (List (Pt α)))) :
     Cursor.newReqD (decide (agg = .last) && w.isZero) agg w shards = Cursor.newReq agg w shards := by
